@@ -1117,3 +1117,97 @@ def rule_stop_chain(prog, res, rule="R-STOP-CHAIN"):
                      "%s raises the filter's stop flag and returns at once; the source then raises the sink's flag in the same instant, so the sink can finish its final flush "
                      "before the filter's last averaged frame is committed: that frame misses this acquisition's storage and is delivered at the start of the next one" % g.name,
                      {"path_blocks": w})
+
+
+def rule_start_unwind(prog, res, rule="R-START-UNWIND"):
+    """acquire_start starts up to three workers per stream; when a later one fails to start, the ones already
+    running have no source thread that would ever tell them to stop.  In the code reached from a failing
+    start check: for every stream that is not skipped as disabled, the filter's and the sink's stop requests
+    are raised (directly, or through the callbacks the source uses) on every path through the per-stream
+    body, and a call that reaches thread_join (directly or through acquire_stop) lies on every path to the
+    error return.  Otherwise the storage stays started and every later stop / abort / shutdown waits for
+    those workers for ever."""
+    f = prog.func("acquire_start")
+    res.touched(f)
+    starts = []
+    for b in f.blocks.values():
+        c = b.cond_node()
+        if c is None:
+            continue
+        for cc in ir.calls_in(c):
+            if cc.get("fn") in ("video_sink_start", "video_filter_start", "video_source_start"):
+                lab = failure_label(c)
+                for su in b.succs:
+                    if su.get("label") == lab and su.get("to") is not None:
+                        starts.append((b, su["to"], cc["fn"]))
+    if len(starts) < 3:
+        raise AnalysisBroken("acquire_start: fewer than three checked worker starts found (%d)" % len(starts))
+
+    def contains(g, p, depth, seen):
+        """does g (or a repository callee, transitively) contain a statement satisfying p?"""
+        if g.name in seen or depth < 0:
+            return False
+        seen.add(g.name)
+        for b_, i_, s_ in g.all_stmts():
+            if p(s_):
+                return True
+            for c_ in ir.calls_in(s_):
+                h = prog.resolve(c_["fn"], g) if c_.get("fn") else None
+                if h is not None and h.blocks and contains(h, p, depth - 1, seen):
+                    return True
+        return False
+
+    def may(p):
+        def q(s_):
+            if p(s_):
+                return True
+            for c_ in ir.calls_in(s_):
+                h = prog.resolve(c_["fn"], f) if c_.get("fn") else None
+                if h is not None and h is not f and h.blocks and contains(h, p, 3, set()):
+                    return True
+            return False
+        return q
+    raise_filter = may(stores_const("filter.is_stopping", 1))
+    raise_sink = may(stores_const("sink.is_stopping", 1))
+    joins = may(lambda s_: bool(calls(s_, "thread_join")))
+    n = 0
+    for blk, to, name in starts:
+        reach = f.reachable_from(to) | {to}
+        # per-stream bodies in the failure code: the non-skip successor of a test of valid_video_streams
+        bodies = []
+        for x in sorted(reach):
+            bx = f.blocks[x]
+            c = bx.cond_node()
+            if c is not None and len(bx.succs) == 2 and "valid_video_streams" in ir.render(c):
+                skip = failure_label(c) if False else None
+                c0 = ir.strip(c)
+                neg = False
+                while isinstance(c0, dict) and c0.get("k") == "un" and c0.get("op") == "!":
+                    neg = not neg
+                    c0 = ir.strip(c0["e"])
+                # ((valid >> i) & 1) == 0  : true edge skips ;  (valid >> i) & 1 : false edge skips
+                skip_label = "true" if (isinstance(c0, dict) and c0.get("k") == "bin" and c0.get("op") == "==" and ir.is_const(c0.get("r"), 0)) else "false"
+                if neg:
+                    skip_label = "false" if skip_label == "true" else "true"
+                for su in bx.succs:
+                    if su.get("label") != skip_label and su.get("to") is not None:
+                        bodies.append(su["to"])
+        froms = bodies or [to]
+        for what, pred, msg, src in (("filter stop request", raise_filter, "does not ask the filter worker to stop", froms),
+                                     ("sink stop request", raise_sink, "does not ask the sink worker to stop", froms),
+                                     ("workers joined", joins, "does not wait for the workers that were started", [to])):
+            ok = True
+            w = None
+            for x in src:
+                ok_, w_ = paths.all_paths_pass(f, (x, -1), "exit", pred)
+                if not ok_:
+                    ok, w = False, w_
+            inst = "acquire_start: after a failed %s - %s on every path to the error return" % (name, what)
+            n += 1
+            if ok:
+                res.oblige(rule, inst, True, "", f.loc())
+            else:
+                res.fail(rule, inst, "%s|%s|%s" % (rule, name, what.split()[0]), f.loc(),
+                         "acquire_start's failure exit %s when %s fails: the sink / filter threads of the streams started so far keep running with no source to end them, "
+                         "their storage stays started, and acquire_stop, acquire_abort and acquire_shutdown wait for them for ever" % (msg, name), {"path_blocks": w})
+    return n
